@@ -234,6 +234,11 @@ class C05(Prop):
                     before, after, want = s0['links'][a['link']]['status'], s1['links'][a['link']]['status'], rm.action_value(a)   # effective (reported) status: a command that changes nothing needs no partial step
                     # the control itself switched it: commanded (user) status and effective status both changed to the commanded value
                     switched = (before != want and after == want and s0['links'][a['link']]['user'] != want and s1['links'][a['link']]['user'] == want)
+                    l_ = lm[a['link']]
+                    if want == 1 and (l_.get('cv') or l_['type'] in ('pump', 'valve') or l_['id'] in tank_adj):
+                        # commanded open, but the link's own check valve / pump / valve / tank logic decides when it effectively opens
+                        # (the command itself changes nothing visible while the link is held closed, so it needs no partial step)
+                        switched = False
                 else:
                     before, after, want = s0['links'][a['link']].get('setting'), s1['links'][a['link']].get('setting'), float(a['value'])
                     switched = before is not None and abs(before - want) > 1e-12 and abs(after - want) <= 1e-9 * max(1.0, abs(want))
